@@ -1,10 +1,11 @@
 (* Argument handling of the entry point tensorly.solvers.nnls.fista, as written (definitions only):
      if sparsity_coef is None: sparsity_coef = 0
+     if ridge_coef is None: ridge_coef = 0            (repaired code, /repo ae57725)
      if x is None: x = tl.zeros(tl.shape(UtM), **tl.context(UtM))
      if lr is None: lr = 1 / (tl.truncated_svd(UtU)[1][0] + 2 * ridge_coef)
-   ridge_coef is used as a number in `2 * ridge_coef` (default step and gradient): ridge_coef = None -- a value the
-   docstring offers ("ridge_coef : float or None") -- raises TypeError; modelled as Err.
-   sigma = the leading singular value of UtU (recorded LAPACK answer, data). *)
+   Before ae57725 ridge_coef = None -- a value the docstring offers ("ridge_coef : float or None") -- was multiplied as a
+   number and raised TypeError: fista_call_before_ae57725 keeps that rule (Err) for the regression Example.
+   sigma = the leading singular value of UtU (recorded LAPACK answer, data).  The result type stays `res` (always Ok now). *)
 From Coq Require Import List Arith Bool.
 From TLV Require Import Base.Ops Base.PyList Base.Tensor Model.Nnls.
 Import ListNotations.
@@ -18,12 +19,14 @@ Definition fista_default_lr (sigma rd : F) : F := fdiv Op (f1 Op) (fadd Op sigma
 
 Definition fista_call (UtM UtU : list (list F)) (n : nat) (nonneg : bool) (sp rd lr : option F) (sigma tol eps : F)
            (x0 : option (list (list F))) (betas : list F) : res (list (list F)) :=
-  match rd with
-  | None => Err          (* TypeError: unsupported operand type(s) for *: 'int' and 'NoneType' *)
-  | Some rdv =>
-    let spv := match sp with Some s => s | None => f0 Op end in
-    let x := match x0 with Some x => x | None => zeros_like UtM end in
-    let lrv := match lr with Some l => l | None => fista_default_lr sigma rdv end in
-    Ok (fista Op UtM UtU n nonneg spv rdv lrv tol eps x betas)
-  end.
+  let spv := match sp with Some s => s | None => f0 Op end in
+  let rdv := match rd with Some v => v | None => f0 Op end in
+  let x := match x0 with Some x => x | None => zeros_like UtM end in
+  let lrv := match lr with Some l => l | None => fista_default_lr sigma rdv end in
+  Ok (fista Op UtM UtU n nonneg spv rdv lrv tol eps x betas).
+
+(* the rule before /repo ae57725: ridge_coef = None raised TypeError *)
+Definition fista_call_before_ae57725 (UtM UtU : list (list F)) (n : nat) (nonneg : bool) (sp rd lr : option F) (sigma tol eps : F)
+           (x0 : option (list (list F))) (betas : list F) : res (list (list F)) :=
+  match rd with None => Err | Some _ => fista_call UtM UtU n nonneg sp rd lr sigma tol eps x0 betas end.
 End E.
